@@ -214,6 +214,20 @@ func redCall(r *vc.Rand, g *genState) (string, string, bool) {
 		a = vc.Pick(r, strAtoms)
 	}
 	ttl := g.ttl(r, k, []string{"0", strconv.Itoa(rShortNS), strconv.Itoa(longNS), rSubNS}, nil)
+	switch r.Intn(40) { // degenerate arguments
+	case 0:
+		a = "s-"
+	case 1:
+		k = "-"
+	case 2:
+		ttl = "-1"
+	case 3:
+		return "setl l 0 " + ttl, "l", true
+	case 4:
+		return "incr c 0", "c", false
+	case 5:
+		return vc.Pick(r, []string{"hset h - " + a, "hget h -", "hdel h -", "app l s-", "rem l s-"}), "h", false
+	}
 	c := redCall1(r, g, k, a, ttl)
 	switch strings.Fields(c)[0] {
 	case "set", "nx", "cas", "exp":
@@ -292,6 +306,7 @@ func genRed(r *vc.Rand, thorough bool) []string {
 	// exhaustive small scope on a kv key, all ttl combinations (incl. a sub-second lifetime)
 	out = append(out, triples("red", "a", append([]string{rSubNS}, ttls...), rSleepNS, true)...)
 	out = append(out, redContainerTriples()...)
+	out = append(out, redDegenerate()...)
 	// storage_based_lock.go call shapes on the Redis backend
 	nlock := 100
 	if thorough {
@@ -533,5 +548,56 @@ func redContainerTriples() []string {
 			}
 		}
 	}
+	return out
+}
+
+// redDegenerate: every call with its degenerate arguments on the Redis backend — the empty list, the
+// empty field, the zero increment, the empty key, the empty string as value / member / expectation,
+// negative lifetimes — over a key that is absent or already holds something, followed by reads and
+// by a further call on the same key.
+func redDegenerate() []string {
+	x, y, z, e := strAtoms[0], strAtoms[1], sTok("z"), "s-"
+	sl := "sl " + strconv.Itoa(rSleepNS)
+	s, l := strconv.Itoa(rShortNS), strconv.Itoa(longNS)
+	var out []string
+	add := func(parts ...string) {
+		out = append(out, strings.Join(strings.Fields("red "+strings.Join(parts, " ")), " "))
+	}
+	// SetList with an empty list: must replace whatever the key holds
+	for _, su := range []string{"", "setl l 2 " + x + " " + y + " 0", "setl l 2 " + x + " " + y + " " + l, "app l " + x + " app l " + y,
+		"setl l 1 " + x + " " + s, "app l " + x + " exp l 0"} {
+		for _, t := range []string{"0", s, l, "-1"} {
+			add(su, "setl l 0 "+t, "getl l", "app l "+z, "getl l", "rem l "+z, "getl l", sl, "getl l")
+			add(su, "setl l 0 "+t, "getl l", "setl l 1 "+y+" "+t, "getl l", "ttl l", sl, "getl l")
+		}
+	}
+	// empty field name
+	for _, su := range []string{"", "hset h f " + x, "hset h - " + x, "hset h f " + x + " exp h 0"} {
+		add(su, "hset h - "+y, "hget h -", "hall h", "ttl h", "hdel h -", "hget h -", "hall h", "hget h f")
+		add(su, "hget h -", "hdel h -", "hall h", "hset h - "+e, "hget h -", "hall h")
+	}
+	// zero increment
+	for _, su := range []string{"", "incr c 5", "incr c 1 incr c -1", "incr c 5 exp c 0", "incr c 5 exp c " + s} {
+		add(su, "incr c 0", "ttl c", "incr c 0", "incr c 2", "ttl c", sl, "ex c", "incr c 0", "ttl c")
+	}
+	// empty key
+	for _, t := range []string{"0", s, l} {
+		add("get -", "ex -", "set - "+x+" "+t, "get -", "ttl -", "nx - "+y+" "+t, "cas - "+x+" "+y+" "+t, "get -", "exp - "+t, "ttl -", sl, "get -", "del -", "get -")
+		add("nx - "+x+" "+t, "cas - nil "+y+" "+t, "get -", "del -", "cas - nil "+y+" "+t, "get -", "ttl -")
+	}
+	add("app - "+x, "app - "+y, "getl -", "rem - "+x, "getl -", "del -", "hset - f "+x, "hget - f", "hall -", "del -", "incr - 1", "incr - 0", "del -", "get -")
+	// the empty string as value, member and expectation (it is not nil)
+	for _, su := range []string{"", "set a " + e + " 0", "set a " + x + " 0", "set a " + e + " " + s} {
+		for _, t := range []string{"0", s} {
+			add(su, "cas a nil "+x+" "+t, "get a", "ttl a")
+			add(su, "cas a "+e+" "+x+" "+t, "get a", "ttl a")
+			add(su, "cas a "+x+" "+e+" "+t, "get a", "cas a "+e+" "+e+" "+t, "get a", "ttl a", sl, "get a")
+			add(su, "nx a "+e+" "+t, "get a", "ex a", "set a "+e+" "+t, "get a", sl, "get a", "ex a")
+		}
+	}
+	add("app l "+e, "getl l", "app l "+x, "rem l "+e, "getl l", "hset h f "+e, "hget h f", "hall h")
+	// negative lifetimes mean "never" everywhere
+	add("set a "+x+" -1", "ttl a", "nx b "+x+" -1", "ttl b", "cas a "+x+" "+y+" -1", "ttl a", "exp b -5", "ttl b", "setl l 1 "+x+" -1", "ttl l", sl, "get a", "get b", "getl l")
+	add("set a "+x+" "+s, "exp a -1", "ttl a", sl, "get a", "set b "+x+" "+s, "cas b "+x+" "+x+" -1", sl, "get b")
 	return out
 }
